@@ -5,8 +5,8 @@ E4 over programs x configurations x (short) folder histories.
 * pair cases: model families x option sets within distance 1 of {cache} (quick) and of {codegen} (thorough).
   First transfer_model -> fresh Model, second -> CachedModel.  Every family exists "bare" (as written) and
   "full" (a ballast block adds one more member to EVERY variable category: state, algebraic, fixed and free
-  input, 2 constants, 2 parameters, String parameter and constant, all with parameter-dependent attributes),
-  so an index / order mix-up between two categories always meets two non-empty categories.
+  input, 2 constants, 3 parameters, String parameter and constant, all with parameter-dependent attributes),
+  so an index / order mix-up between two categories always meets two non-empty categories of different sizes.
 * delay-duration cases: every sequence (length 1, 2; 3 in thorough) over the 8 duration kinds = subsets of
   {constant, parameter, fixed input} the duration depends on (the second member of each category is used).
 * history cases: compile, ONE change (option / library_folders source / model-folder source), transfer_model
@@ -587,9 +587,10 @@ def run(ctx):
             "skipped_because_fresh_compile_fails": skipped,
             "models": sorted(MODELS),
             "exhaustive": True,
-            "rule": "9 model families (parameter-dependent attributes, alias chains incl. negative, delay, delay in a loop, several "
-            "delays, String/Integer/Boolean, arrays, affine, minimal) bare and (all but minimal) with a ballast block that adds a "
-            "member to every variable category, x every option set within distance 1 of {cache} (10 simplification switches, 5 "
+            "rule": "10 model families (parameter-dependent attributes, alias chains incl. negative, delay, delay in a loop, several "
+            "delays, String/Integer/Boolean, arrays, an array first in every category, affine, minimal) bare and (all but minimal) "
+            "with a ballast block that adds a member with parameter-dependent attributes to every variable category (state, "
+            "algebraic, fixed and free input, 2 constants, 3 parameters, String parameter and constant), x every option set within distance 1 of {cache} (10 simplification switches, 5 "
             "other options, eliminable_variable_expression, two 2-option sets); delay-duration family: every sequence of 1 "
             "(x all option sets) or 2 (x {cache}, +replace_constant_values, +replace_parameter_values) delays (3 in thorough, "
             "{cache}) over the 8 duration kinds = subsets of {constant, parameter, fixed input}; thorough adds {codegen} x 6 sets "
